@@ -90,6 +90,7 @@ class Engine:
         self.seed = seed
         self.rng = random.Random(seed)
         self.solver = z3.Solver()
+        self.solver_timeout_ms = solver_timeout_ms
         self.solver.set("timeout", solver_timeout_ms)
         # entries: [label, kind, choice, pending]
         #   kind "bool": choice in {True, False}, pending = list of remaining
@@ -118,8 +119,15 @@ class Engine:
     def _check(self, *assumptions: z3.BoolRef) -> str:
         t0 = time.perf_counter()
         r = self.solver.check(*assumptions)
-        self.stats.solver_s += time.perf_counter() - t0
         s = str(r)
+        if s == "unknown":
+            # the timeout is wall-clock: on a loaded machine a small query can run out of it; ask once more with 5x the time
+            self.solver.set("timeout", self.solver_timeout_ms * 5)
+            try:
+                s = str(self.solver.check(*assumptions))
+            finally:
+                self.solver.set("timeout", self.solver_timeout_ms)
+        self.stats.solver_s += time.perf_counter() - t0
         if s == "sat":
             self.stats.checks_sat += 1
         elif s == "unsat":
